@@ -102,6 +102,7 @@ func (in *Input) tags(w *World, first *GenResult) []string {
 		t = append(t, "globals")
 	}
 	nImp, mapv, mapk, meth, alias, deferd := 0, false, false, false, false, false
+	mapc := false
 	for _, g := range in.Gens {
 		if g.Alias {
 			alias = true
@@ -117,13 +118,16 @@ func (in *Input) tags(w *World, first *GenResult) []string {
 				if strings.HasPrefix(d, "mapvar:") {
 					mapk = true
 				}
+				if strings.HasPrefix(d, "mapval:") {
+					mapc = true
+				}
 			}
 			meth = meth || f.Methods
 			deferd = deferd || len(f.Defer) > 0
 		}
 	}
 	t = append(t, "import-refs="+bucket(nImp))
-	for k, v := range map[string]bool{"map-literal": mapv, "map-literal:non-string-keys": mapk, "methods-probe": meth, "alias-generator": alias, "defer": deferd, "world-error": w.Err != ""} {
+	for k, v := range map[string]bool{"map-literal": mapv, "map-literal:non-string-keys": mapk, "map-literal:values-of-colliding-packages": mapc, "methods-probe": meth, "alias-generator": alias, "defer": deferd, "world-error": w.Err != ""} {
 		if v {
 			t = append(t, k)
 		}
@@ -160,6 +164,8 @@ func (b *builder) declKinds(max int) []string {
 			out = append(out, "mapvar")
 		case k < 6: // a map literal with 2-8 entries whose keys are not strings
 			out = append(out, fmt.Sprintf("mapvar:%s:%d", core.Pick(b.r, keyKinds), 2+b.r.Intn(7)))
+		case k < 7: // a map literal with 3-8 entries whose values mention packages that compete for one import name
+			out = append(out, fmt.Sprintf("mapval:%s:%d", core.Pick(b.r, mapvalShapes), 3+b.r.Intn(6)))
 		default:
 			out = append(out, "id:"+core.Pick(b.r, lightStd))
 		}
@@ -435,6 +441,19 @@ func corner() []*Input {
 		}
 		out = append(out, one([]ObjSpec{{Kind: "struct", Name: "T", Doc: enable("rec")}, {Kind: "int", Name: "U", Doc: enable("rec")}},
 			[]GenSpec{{Name: "rec", Script: map[string]FragSpec{"0/0": {Outcome: "render", Decls: decls}, "0/1": {Outcome: "render", Decls: []string{"mapvar:int:5"}, Defer: []string{"mapvar:uint8:3"}}}}}))
+	}
+	// map literals whose VALUES mention, entry by entry, different packages with the same last path element (the import
+	// tracker gives the short name to the package that asks first): 8 fresh processes must agree on the import names
+	{
+		in := one([]ObjSpec{{Kind: "struct", Name: "T", Doc: enable("rec")}},
+			[]GenSpec{{Name: "rec", Script: map[string]FragSpec{"0/0": {Outcome: "render", Decls: []string{"mapval:xy:6", "func", "mapval:v1:4"}}}}})
+		in.N = 8
+		out = append(out, in)
+		in = one([]ObjSpec{{Kind: "struct", Name: "T", Doc: append(enable("rec"), enable("rec2")...)}, {Kind: "int", Name: "U", Doc: enable("rec2")}},
+			[]GenSpec{{Name: "rec", Script: map[string]FragSpec{"0/0": {Outcome: "render", Decls: []string{"mapval:xyz:6"}, Defer: []string{"mapval:lv:5"}}}},
+				{Name: "rec2", Script: map[string]FragSpec{"0/0": {Outcome: "render", Decls: []string{"mapval:nest:4"}}, "0/1": {Outcome: "render", Decls: []string{"mapval:mix:8", "mapval:ptr:3"}}}}})
+		in.N = 8
+		out = append(out, in)
 	}
 	// several packages, permuted entrypoints, stale files, a previous sum, alias generator, ignore / skip
 	{
